@@ -206,7 +206,7 @@ pub fn run(run: &mut Run) -> Finish {
         );
     }
     // slice 2: long lines
-    let lens = [17usize, 18, 33, 40];
+    let lens = [17usize, 18, 33, 40, 64, 65, 129];
     let pre = [0usize, 1, 20];
     let mut long_cases: Vec<(usize, usize, Vec<usize>)> = vec![];
     for &len in &lens {
@@ -226,7 +226,7 @@ pub fn run(run: &mut Run) -> Finish {
         }
     }
     let nlong = long_cases.len() as u64;
-    run.par_slice("long lines of 17/18/33/40 tokens preceded by a line of 0/1/20 tokens: every single flag position, pairs from {0,5,6,7,15,16,17,last}, all flags", 10, nlong * 3, |idx, l| {
+    run.par_slice("long lines of 17/18/33/40/64/65/129 tokens preceded by a line of 0/1/20 tokens: every single flag position, pairs from {0,5,6,7,15,16,17,last}, all flags", 10, nlong * 3, |idx, l| {
         let k = idx & ((1 << 40) - 1);
         let (len, p, flags) = &long_cases[(k / 3) as usize];
         // flags refer to the long line; the preceding line's first token is also flagged when p is odd
@@ -266,7 +266,7 @@ pub fn run(run: &mut Run) -> Finish {
     });
     Finish {
         level: "exploration",
-        rule: "E1: every assignment of the range flag to the tokens of every layout of the stated space (1-4 generated lines incl. leading empty lines and gaps, 0..4/5 tokens per line; long lines of 17/18/33/40 tokens with every single flag position and boundary pairs at 5/6/7, 15/16/17), built three ways (raw constructor, builder, decoding a document whose rangeMappings was written by an independent bit-field writer). Oracles: the written rangeMappings read independently marks exactly the model's tokens by in-line segment index; after to_writer+decode is_range of every token equals the model's; every lookup on a full grid (incl. later lines, u32::MAX columns) reports original column + distance on the range token's own line and the token's own position otherwise, never panicking. Distinct by construction; non-trivial = at least one range token; class = layout x flag count x position class of the first range token.".into(),
+        rule: "E1: every assignment of the range flag to the tokens of every layout of the stated space (1-4 generated lines incl. leading empty lines and gaps, 0..4/5 tokens per line; long lines of 17/18/33/40/64/65/129 tokens with every single flag position and boundary pairs at 5/6/7, 15/16/17), built three ways (raw constructor, builder, decoding a document whose rangeMappings was written by an independent bit-field writer). Oracles: the written rangeMappings read independently marks exactly the model's tokens by in-line segment index; after to_writer+decode is_range of every token equals the model's; every lookup on a full grid (incl. later lines, u32::MAX columns) reports original column + distance on the range token's own line and the token's own position otherwise, never panicking. Distinct by construction; non-trivial = at least one range token; class = layout x flag count x position class of the first range token.".into(),
         assumptions: vec![
             "original column + distance beyond u32::MAX: crash-freedom only".into(),
             "maps with exact consecutive duplicate tokens are a separate slice whose violations carry the suffix /with-duplicate-token (DESIGN 3.3)".into(),
